@@ -857,5 +857,106 @@ Section RHP.
       + rewrite Ho'. pose proof (occupied_upd i None l Hi) as Hou. rewrite Hat in Hou. fold l0 in Hou. simpl in Hou. lia.
   Qed.
 
+  (* ---------------------------------------------------------------- 4d. rehash *)
+  Lemma UQ_tail s (l : list slot) : UQ (s :: l) -> UQ l.
+  Proof.
+    intros Huq a b g g' x x' Ha Hb Hxx.
+    assert (S a = S b) by (eapply Huq; [rewrite at_cons; exact Ha|rewrite at_cons; exact Hb|exact Hxx]). lia.
+  Qed.
+
+  (* no duplicate keys, list form: iteration yields every key once *)
+  Lemma UQ_NoDup (l : list slot) : UQ l -> NoDup (map ekey (entries l)).
+  Proof.
+    induction l as [|s l IH]; intros Huq; [constructor|].
+    rewrite entries_cons. pose proof (IH (UQ_tail _ _ Huq)) as Hnd.
+    destruct s as [[h e]|]; [|exact Hnd]. simpl. constructor; [|exact Hnd].
+    intros Hin. apply in_map_iff in Hin. destruct Hin as [x [Hk Hx]].
+    apply in_entries in Hx. destruct Hx as [a [g Ha]].
+    assert (0 = S a); [|lia]. eapply (Huq 0 (S a) h g e x); [reflexivity|rewrite at_cons; exact Ha|auto].
+  Qed.
+
+  Lemma NoDup_UQ (l : list slot) : NoDup (map ekey (entries l)) -> UQ l.
+  Proof.
+    induction l as [|s l IH]; intros Hnd.
+    - intros a b g g' x x' Ha. destruct a; discriminate.
+    - rewrite entries_cons in Hnd.
+      assert (Hnd' : NoDup (map ekey (entries l))) by (destruct s as [[h e]|]; [inversion Hnd|]; assumption).
+      specialize (IH Hnd').
+      intros a b g g' x x' Ha Hb Hxx.
+      destruct a as [|a]; destruct b as [|b]; auto.
+      + exfalso. unfold RobinHood.at_ in Ha; simpl in Ha. subst s. rewrite at_cons in Hb.
+        simpl in Hnd. inversion Hnd as [|? ? Hnin _]. apply Hnin. rewrite Hxx. apply in_map.
+        apply in_entries. exists b, g'. exact Hb.
+      + exfalso. unfold RobinHood.at_ in Hb; simpl in Hb. subst s. rewrite at_cons in Ha.
+        simpl in Hnd. inversion Hnd as [|? ? Hnin _]. apply Hnin. rewrite <- Hxx. apply in_map.
+        apply in_entries. exists a, g. exact Ha.
+      + rewrite at_cons in Ha, Hb. f_equal. eapply IH; eauto.
+  Qed.
+
+  Section Rehash.
+  Variable home_of : K -> nat -> nat.
+
+  (* Table_Rehash / GC_Rehash: re-inserting entries with pairwise distinct keys that are not
+     in the target array; every insertion is of an absent key, so ANY admissible displacement
+     rule will do *)
+  Lemma reinsert_spec : forall (old acc : list slot), core acc ->
+    (forall k, home_of k (length acc) = hm k) -> (forall k, hm k < length acc) ->
+    NoDup (map ekey (entries old)) ->
+    (forall x, In x (entries old) -> Absent acc (ekey x)) ->
+    occupied acc + occupied old <= length acc ->
+    exists acc', reinsert K E keq ekey swap on_eq home_of old acc = Some acc' /\
+      core acc' /\ length acc' = length acc /\
+      (forall x, Holds acc' x <-> Holds acc x \/ In x (entries old)) /\
+      occupied acc' = occupied acc + occupied old.
+  Proof.
+    induction old as [|s old IH]; intros acc Hc Hho Hhm Hnd Habs Hocc.
+    - exists acc. simpl. split; [reflexivity|]. split; [assumption|]. split; [reflexivity|].
+      split; [tauto|]. unfold RobinHood.occupied at 3; simpl. lia.
+    - rewrite entries_cons in Hnd, Habs. rewrite occupied_cons in Hocc.
+      destruct s as [[h0 e]|].
+      + simpl in Hnd, Habs, Hocc. inversion Hnd as [|? ? Hnin Hnd']; subst.
+        destruct (insert_absent_spec acc e Hc (Hhm _) ltac:(lia) (Habs e (or_introl eq_refl)))
+          as [acc1 [Hins [Hc1 [Hlen1 [Hh1 Ho1]]]]].
+        destruct (IH acc1) as [acc' [Hr [Hc' [Hlen' [Hh' Ho']]]]]; auto.
+        * rewrite Hlen1. assumption.
+        * rewrite Hlen1. assumption.
+        * intros x Hx a g y Ha Hk.
+          assert (Hy : Holds acc1 y) by (exists a, g; exact Ha).
+          apply Hh1 in Hy. destruct Hy as [[a' [g' Ha']]| ->].
+          -- eapply (Habs x (or_intror Hx)); eauto.
+          -- apply Hnin. rewrite Hk. apply in_map. assumption.
+        * rewrite Hlen1. lia.
+        * exists acc'. split.
+          { simpl. rewrite Hho, Hins. exact Hr. }
+          split; [exact Hc'|]. split; [lia|]. split.
+          -- intros x. rewrite Hh', Hh1, entries_cons. simpl. intuition auto.
+          -- rewrite occupied_cons. simpl. lia.
+      + simpl in Hocc. destruct (IH acc) as [acc' [Hr [Hc' [Hlen' [Hh' Ho']]]]]; auto.
+        exists acc'. split; [exact Hr|]. split; [exact Hc'|]. split; [exact Hlen'|]. split.
+        * intros x. rewrite Hh', entries_cons. tauto.
+        * rewrite occupied_cons. simpl. lia.
+  Qed.
+
+  Theorem rehash_spec (old : list slot) n : UQ old ->
+    (forall k, home_of k n = hm k) -> (forall k, hm k < n) -> occupied old <= n ->
+    exists l', rehash K E keq ekey swap on_eq home_of old n = Some l' /\
+      core l' /\ length l' = n /\
+      (forall x, Holds l' x <-> Holds old x) /\
+      occupied l' = occupied old.
+  Proof.
+    intros Huq Hho Hhm Hocc. unfold rehash.
+    destruct (reinsert_spec old (repeat None n)) as [l' [Hr [Hc' [Hlen' [Hh' Ho']]]]].
+    - apply core_repeat.
+    - rewrite repeat_length. assumption.
+    - rewrite repeat_length. assumption.
+    - apply UQ_NoDup. assumption.
+    - intros x _. apply Absent_repeat.
+    - rewrite repeat_length, occupied_repeat. lia.
+    - rewrite repeat_length in Hlen'. rewrite occupied_repeat in Ho'.
+      exists l'. split; [exact Hr|]. split; [exact Hc'|]. split; [exact Hlen'|]. split; [|exact Ho'].
+      intros x. rewrite Hh', in_entries. split; [intros [[a [g Ha]]|]; [rewrite at_repeat in Ha; discriminate|assumption]|auto].
+  Qed.
+  End Rehash.
+
   End Fixed.
 End RHP.
